@@ -93,10 +93,12 @@ inductive VErr where
   | curveMultiBackend (id : String)
   | curveNoBackend (id : String)
   | curveBadFnType (id : String)
+  | curveNoMembers (id : String)
   | curveSelfRef (id : String)
   | curveNoCurve (id : String)
   | curveNoSensorId (id : String)
   | curveNoSensor (id : String)
+  | curveEmptySteps (id : String)
   | curvePidZero (id : String)
   | curveCycle
   | dupFan (id : String)
@@ -104,6 +106,7 @@ inductive VErr where
   | fanNoBackend (id : String)
   | fanNoCurveId (id : String)
   | fanNoCurve (id : String)
+  | fanEmptyAlgo (id : String)
   | fanBadMaxPwmChange (id : String)
   | fanPidZero (id : String)
   | fanIndexXorRpm (id : String)
@@ -185,13 +188,15 @@ def validateFunction (c : Configuration) (id : String) : Option FunctionCfg → 
   | none => .ok ()
   | some f =>
     check (!supportedTypes.contains f.type) (.curveBadFnType id) >>>
+    check f.curves.isEmpty (.curveNoMembers id) >>>
     validateMembers c id f.curves
 
 def validateLinear (c : Configuration) (id : String) : Option LinearCfg → Except VErr Unit
   | none => .ok ()
   | some l =>
     check (decide (l.sensor.length ≤ 0)) (.curveNoSensorId id) >>>
-    check (!sensorIdExists l.sensor c) (.curveNoSensor id)
+    check (!sensorIdExists l.sensor c) (.curveNoSensor id) >>>
+    check (match l.steps with | some st => st.isEmpty | none => false) (.curveEmptySteps id)
 
 def validatePid (c : Configuration) (id : String) : Option PidCfg → Except VErr Unit
   | none => .ok ()
@@ -258,6 +263,7 @@ def validateCurves (c : Configuration) : Except VErr Unit :=
 def validateCtrlAlg (id : String) : Option CtrlAlgCfg → Except VErr Unit
   | none => .ok ()
   | some ca =>
+    check (ca.direct.isNone && ca.pid.isNone) (.fanEmptyAlgo id) >>>
     check (match ca.direct with | some (some m) => decide (m ≤ 0) | _ => false) (.fanBadMaxPwmChange id) >>>
     check (match ca.pid with | some (p, i, d) => allZero p i d | none => false) (.fanPidZero id)
 
